@@ -153,6 +153,15 @@ def name_failures(res, gen_lines, linemap, unit):
                     break
             if tag:
                 break
+        if not tag:
+            for (a, b, _l) in f["secondary"]:
+                for ln in range(a, min(b, a + 3) + 1):
+                    m = TAG.search(gen_lines[ln - 1]) if ln - 1 < len(gen_lines) else None
+                    if m:
+                        tag = m.group(1)
+                        break
+                if tag:
+                    break
         for (a, b, _l) in spans:
             o = linemap[a - 1] if a - 1 < len(linemap) else None
             if o and o[0] == "repo" and not repo_loc:
